@@ -18,7 +18,8 @@
 //!     autosave = 1: the client answers the server's workspace/configuration question about files.autoSave with
 //!                   "afterDelay" (then the server does not poll the documents every 500 ms: only didOpen / didSave check)
 //!              = 0: the question is left unanswered (what molc's FakeClient does): the polling thread runs
-//! case (2 hid autosave (text ...))    C29 reference: a NEW server; each text is opened as its own document
+//! case (2 hid autosave (text ...) [nowait])   C29 reference: a NEW server (driven only after its start-up work is over,
+//!                                      Flags::builtin_modules_loaded, unless nowait = 1); each text is opened as its own document
 //!        -> ((rc (pub ...)) ...)       as above, one entry per text (doc = index of the text)
 //! case (4 (text ...))               -> per text ((chunk_printed ln_begin col_begin) ...) of SimpleParser::parse, or -1
 //! case (3 hid text new_name ((line col) ...))   C30: the text is written to disk and opened; one textDocument/rename
@@ -59,7 +60,26 @@ thread_local! {
     static SERIAL: RefCell<u64> = RefCell::new(0);
 }
 
+/// `settled`: return only when the server's own start-up work is over: `Flags::builtin_modules_loaded` (the thread
+/// CompletionCache::new starts analyses `pyimport "math"` ... into the shared module cache; a document that imports
+/// such a module while that thread runs gets a spurious `no attribute` error). els' own tests wait for the same flag.
+fn new_client_opt(autosave: bool, settled: bool) -> Client {
+    let c = new_client_raw(autosave);
+    if settled {
+        let start = Instant::now();
+        while !c.server.flags.builtin_modules_loaded() && start.elapsed() < Duration::from_secs(600) {
+            std::thread::yield_now();
+            std::thread::sleep(Duration::from_millis(5));
+        }
+    }
+    c
+}
+
 fn new_client(autosave: bool) -> Client {
+    new_client_opt(autosave, true)
+}
+
+fn new_client_raw(autosave: bool) -> Client {
     let (tx, rx) = channel();
     let cfg = ErgConfig {
         mode: ErgMode::LanguageServer,
@@ -308,7 +328,9 @@ fn history(case: &Sx) -> Sx {
 fn fresh(case: &Sx) -> Sx {
     let hid = case.nth(1).z();
     let autosave = case.nth(2).z() != 0;
-    let mut client = new_client(autosave);
+    // optional 5th element 1: do not wait for the server's start-up work (probe of the start-up race)
+    let settled = !(case.l().len() > 4 && case.nth(4).z() == 1);
+    let mut client = new_client_opt(autosave, settled);
     let mut out = vec![];
     for (i, t) in case.nth(3).l().iter().enumerate() {
         let n = Sx::L(vec![Sx::Z(0), Sx::Z(i as i128), Sx::Z(1), t.clone()]);
